@@ -201,6 +201,7 @@ harnesses! {
     e2n_c09_aux_battery [native 0] => battery::c09_aux_battery;
     e2n_c10_pointers [native 0] => battery::c10_pointers;
     e2n_c01_struct_roundtrip [native 0] => battery::c01_battery;
+    e2n_c01_plutus_variants [native 0] => battery::c01_plutus_variants;
     e2n_c04_fixed_tx [native 0] => battery::c04_fixed_tx;
     e2n_c13_send_all [native 0] => battery::c13_send_all;
     e2n_c13_spend_all [native 0] => battery::c13_spend_all;
